@@ -908,6 +908,7 @@ func c16c(c *Ctx) {
 			}
 		}
 		nF := 0
+		var notWindow []string
 		for k, where := range used {
 			nF++
 			bad := ""
@@ -936,8 +937,30 @@ func c16c(c *Ctx) {
 					if val == "zero" || val == "" {
 						bad = c.W.Pos(a.Pos())
 					}
+					// (viii) ... and what it is set to is a token of the source: it comes out of the
+					// parser's token window (directly, through a local copy, or handed in by the
+					// caller), not out of a table or a synthesised value without a position
+					if val != "zero" && val != "" {
+						use := lastUseOrLoad(a)
+						for _, r := range returnsOf(fn) {
+							if len(r.Results) > 0 && r.Results[0] == ssa.Value(a) {
+								use = r
+							}
+						}
+						if fv := fieldValue(a, k.field, use); fv != nil && typeIs(fv.Type(), "token", "Token") {
+							for _, lf := range c.originLeaves(fn, fv) {
+								t := lf.term
+								okT := strings.HasPrefix(t, "$0.curToken") || strings.HasPrefix(t, "$0.peek") || regexpMust(`^\$[1-9]\d*`).MatchString(t) || strings.HasPrefix(t, "mu(") || strings.HasPrefix(t, "new#") || strings.Contains(t, ".Token") || strings.Contains(t, "Token")
+								if !okT {
+									notWindow = append(notWindow, k.typ+"."+k.field+" = "+pretty(t)+" at "+c.W.Pos(a.Pos()))
+								}
+							}
+						}
+					}
 				})
 			}
+			c.Check(len(notWindow) == 0, "marker-field-from-the-window/"+k.typ+"."+k.field, where, "the token stored in "+k.typ+"."+k.field+" comes from the parser's token window", fmt.Sprintf("a token read by a line marker does not come from the token window: %v", notWindow))
+			notWindow = nil
 			c.Check(bad == "", "marker-field-always-set/"+k.typ+"."+k.field, where, fmt.Sprintf("ast.%s.%s (read by a line marker) is set at all %d construction sites", k.typ, k.field, nAlloc), "ast."+k.typ+"."+k.field+" is read by the line marker at "+where+" but the node built at "+bad+" leaves it unset: that marker would name line 0")
 		}
 		c.Check(nF >= 6, "marker-fields", "-", fmt.Sprintf("%d AST token fields are read by marker sites", nF), fmt.Sprintf("only %d AST token fields found at marker sites", nF))
